@@ -1,11 +1,14 @@
 package props
 
 import (
+	"bytes"
 	"fmt"
 	"math"
 	"math/rand"
 	"strings"
 	"unicode/utf8"
+
+	"github.com/boombuler/barcode"
 
 	"verifharness/fw"
 	"verifharness/refdec"
@@ -31,7 +34,48 @@ const (
 	expDontCare = iota
 	expAccept
 	expReject
+	// expBeyond: more than the compaction this encoder implements can hold, but not more
+	// than the symbology can hold with a better encoding.  The encoder may accept (then
+	// the symbol must decode to the content) or refuse; capacity is read relative to the
+	// implemented compaction, as C13 does ("the content's ASCII encodation", "the
+	// densest single mode").
+	expBeyond
 )
+
+// decodedPayload reads the symbol of an accepted 2D request with the reference decoder.
+func decodedPayload(req Req, bc barcode.Barcode) ([]byte, error) {
+	g, err := grid2D(bc)
+	if err != nil {
+		return nil, err
+	}
+	switch req.Fam {
+	case "qr":
+		res, err := refdec.DecodeQR(g)
+		if err != nil {
+			return nil, err
+		}
+		return res.Payload, nil
+	case "datamatrix":
+		res, err := refdec.DecodeDataMatrix(g)
+		if err != nil {
+			return nil, err
+		}
+		return res.Payload, nil
+	case "pdf417":
+		res, err := refdec.DecodePDF417(g)
+		if err != nil {
+			return nil, err
+		}
+		return res.Payload, nil
+	case "aztec":
+		res, err := refdec.DecodeAztec(g)
+		if err != nil {
+			return nil, err
+		}
+		return res.Payload, nil
+	}
+	return nil, fmt.Errorf("no reference decoder for %s", req.Fam)
+}
 
 func allIn(s string, set string) bool {
 	for _, r := range s {
@@ -201,13 +245,45 @@ func expectation(r Req) (int, string) {
 			if len(s) <= capB || (aln && len(s) <= capA) || (dig && len(s) <= capN) {
 				return expAccept, "representable in some mode within version 40"
 			}
-			return expReject, "beyond version-40 capacity in every mode that can express it"
+			// a mix of segments cannot be denser than 10/3 bits per digit, 11/2 per other
+			// alphanumeric character and 8 per other byte, plus one segment header
+			sixthBits := 0
+			for i := 0; i < len(s); i++ {
+				switch {
+				case s[i] >= '0' && s[i] <= '9':
+					sixthBits += 20
+				case strings.IndexByte(refQRAlnum, s[i]) >= 0:
+					sixthBits += 33
+				default:
+					sixthBits += 48
+				}
+			}
+			if sixthBits/6+14 > 8*refdec.QRDataCodewords(40, int(lvl)) {
+				return expReject, "beyond version-40 capacity in every segmentation"
+			}
+			return expBeyond, "beyond version-40 capacity in any single mode, a mix of segments might fit"
 		}
 	case "datamatrix":
 		if refdec.DMAsciiCodewords(r.S) <= 1558 {
 			return expAccept, "ASCII encodation within 1558 codewords"
 		}
-		return expReject, "ASCII encodation exceeds 1558 codewords"
+		// no encodation scheme is denser than 2 digits, 1.5 other ASCII characters or
+		// 1 byte per codeword
+		sixths := 0
+		for _, c := range r.S {
+			switch {
+			case c >= '0' && c <= '9':
+				sixths += 3
+			case c < 128:
+				sixths += 4
+			default:
+				sixths += 6
+			}
+		}
+		if (sixths+5)/6 > 1558 {
+			return expReject, "exceeds 1558 codewords in every encodation scheme"
+		}
+		return expBeyond, "ASCII encodation exceeds 1558 codewords, a denser scheme might not"
 	case "pdf417":
 		lvl := r.int(0)
 		if lvl < 0 || lvl > 255 {
@@ -222,6 +298,9 @@ func expectation(r Req) (int, string) {
 			// not forced: judged only when comfortably small (two values per character worst case)
 			if 2*len(r.S)+4+k <= 900 {
 				return expAccept, "small payload"
+			}
+			if refdec.PDFSimpleCodewords(r.S)+1+k <= 900 {
+				return expBeyond, "a latch-only text encoding fits 30x30; this encoder's greedy sub-mode choice might not"
 			}
 			return expDontCare, ""
 		}
@@ -644,6 +723,25 @@ func (p c10) Exec(c *fw.Ctx, u *fw.Unit) {
 			return
 		}
 		c.Cover("region", "must-accept")
+	case expBeyond:
+		c.Cover("region", "beyond-implemented-compaction")
+		if accepted {
+			bc := o.bc
+			if req.Scheme >= 0 {
+				// decode the plain black-on-white rendering of the same request
+				plain := req
+				plain.Scheme = -1
+				if o2 := plain.call(); o2.panic == nil && o2.err == nil && o2.bc != nil {
+					bc = o2.bc
+				}
+			}
+			got, err := decodedPayload(req, bc)
+			if err != nil || !bytes.Equal(got, req.S) {
+				c.Violation("accept/"+req.Fam+"/accepted-but-symbol-wrong", fmt.Sprintf("accepted content beyond the implemented compaction (%s) but the symbol does not decode to it: %v", why, err), inner, "")
+			}
+			return
+		}
+		return
 	case expReject:
 		if accepted {
 			c.Violation("accept/"+req.Fam+"/accepted-unrepresentable", fmt.Sprintf("must reject (%s) but returned a barcode", why), inner, "")
